@@ -39,7 +39,15 @@ def task(item):
     model, trace, pname = item[:3]
     specs = render.render(model)
     oc, v = judge(model, specs, trace)
-    return {'outcome': oc, 'viol': v}
+    n = 1
+    # nested definitions are identical to top-level ones (lang_ref): every inline rendering must give the same description
+    for lab, ispecs in render.render_inline_variants(model):
+        n += 1
+        o2, v2 = judge(model, ispecs, tuple(trace) + (lab,))
+        for x in v2:
+            x['id'] = 'nested-definition:' + x['id']
+        v += v2
+    return {'outcome': oc, 'viol': v, 'n': n, 'transitions': n}
 
 
 def ptask(item):
